@@ -1483,12 +1483,18 @@ func (p *Parser) parseOrderBy(stmt *SelectStatement) error {
 	orderLexer := NewLexer(p.input)
 	orderLexer.SetErrorRecovery(NewErrorRecovery(nil))
 	orderPos := -1
+	depth := 0 // an ORDER inside parentheses (MATCH_RECOGNIZE ( ... ORDER BY ts ... )) is not the query's ORDER BY
 	for {
 		tok := orderLexer.NextToken()
 		if tok.Type == TokenEOF {
 			break
 		}
-		if tok.Type == TokenOrder {
+		if tok.Type == TokenLParen {
+			depth++
+		} else if tok.Type == TokenRParen && depth > 0 {
+			depth--
+		}
+		if tok.Type == TokenOrder && depth == 0 {
 			orderPos = tok.Pos
 			break
 		}
